@@ -2,6 +2,7 @@
 (* Generator for C15: TLC enumerates the queries of OrderLimit.tla family by family, checks the       *)
 (* meta-invariants of the oracle on every query and prints query + expected answer.                   *)
 EXTENDS OrderLimit, Json
+CONSTANT FullInv     \* TRUE: every meta-invariant on every query; FALSE (quick tier): the expensive ones on a part
 VARIABLES fam, q
 NoQ == [src |-> "none"]
 Init == fam \in Families /\ q = NoQ
@@ -22,5 +23,20 @@ Describe(x) ==
         nullkey |-> HasNullKey(R),
         unproj |-> \E i \in 1..Len(x.keys) : ~Projected(x.keys[i], x.sel)]
 Emit == q'.src # "none" => PrintT(<<"T", ToJson(Describe(q'))>>)
-OracleInv == q.src # "none" => OracleOK(q)
+\* the cheap part of OracleOK: the sort sorts and permutes, the window has the right length, the answer is admissible
+OracleCheap(x) ==
+    LET R == SortedInput(x, x.keys)
+        dirs == Dirs(x.keys)
+        n == Len(R)
+        P == Projection(x, x.keys)
+        In == IF x.dist THEN Distinct(P) ELSE P
+        ans == Outs(Window(R, x.lim, x.off))
+    IN /\ IsSortedBy(R, dirs)
+       /\ BagOfIdx(R, 1..n) = BagOfIdx(In, 1..Len(In))
+       /\ Len(ans) = (IF x.lim = NoLim THEN Max2(n - WinLo(n, x.off), 0) ELSE Min2(x.lim, Max2(n - (IF x.off = NoLim THEN 0 ELSE x.off), 0)))
+       /\ AdmissibleOutput(ans, R, Classes(R, dirs), x.lim, x.off)
+\* quick tier: the full set on every query with at most one key (all windows) and on every multi-key query without a
+\* window (the lexicographic comparator); the cheap part on the rest.  thorough tier: the full set everywhere
+OracleInv == q.src # "none" =>
+                IF FullInv \/ Len(q.keys) <= 1 \/ (q.lim = NoLim /\ q.off = NoLim) THEN OracleOK(q) ELSE OracleCheap(q)
 =============================================================================
